@@ -460,7 +460,11 @@ pub fn c06(ctx: &mut Ctx) -> (u64, String) {
         }
     }
     let shadows: std::collections::BTreeSet<(u16, u8)> = g.states.iter().map(|s| (s.1, s.2)).collect();
-    ctx.expect(shadows.len() == 2047, &format!("all 2047 partial-frame prefixes visited on the reference side (saw {})", shadows.len()));
+    if g.capped {
+        ctx.cap_hit("frame bfs", 400_000);
+    } else {
+        ctx.expect(shadows.len() == 2047, &format!("all 2047 partial-frame prefixes visited on the reference side (saw {})", shadows.len()));
+    }
     ctx.states += g.states.len() as u64;
     ctx.transitions += g.edges;
     ctx.traces_validated += g.edges;
